@@ -375,22 +375,23 @@ func vcRunC13(t *vcTrial, cfg vc13Cfg) {
 				c := vcInner(rec.Conn)
 				// root cause from the trace: closed by the peer's hang-up before the accept path had
 				// stored it (D30), as opposed to an accept that was in flight when Shutdown began (D15)
-				var tHup, tStore int64
+				// (the table is only ever shrunk by the connection's own close callback and by the accept
+				// path's two IsActive() checks: closed by the peer, handler running, close callbacks not
+				// started and yet untracked leaves the accept path)
+				hup, cbStarted := false, false
 				for _, e := range vcTraceSince(mark) {
 					if e.Obj != rec.ID {
 						continue
 					}
 					switch int(e.Point) {
 					case vpOnHupAfterCloseBy:
-						if tHup == 0 {
-							tHup = e.T
-						}
-					case vpAcceptAfterStore:
-						tStore = e.T
+						hup = true
+					case vpCloseCbBeforeRun:
+						cbStarted = true
 					}
 				}
 				why := ""
-				if late == "" && tHup != 0 && (tStore == 0 || tHup < tStore) && atomic.LoadInt32(&rec.depth) > 0 {
+				if late == "" && hup && !cbStarted && atomic.LoadInt32(&rec.depth) > 0 {
 					why = " [" + vc13ClosedWhileAccepted + "]"
 				}
 				t.Violate("C13", "nil_with_open_connection", "Shutdown returned nil but accepted connection fd=%d has not run its close callbacks (active=%v, history %v)%s%s", rec.FD, c.IsActive(), rec.history(), late, why)
